@@ -14,6 +14,10 @@ CAUGHT = {
  'C30-difference-prune': ('./check C30 --tier quick', 'combinator inductive step for DifferenceMatcher sat'),
  'C31-union-tuples-drop': ('./check C31 --tier quick', 'matches() vs set semantics sat for unions with three sub-matchers; reproduced natively'),
  'C33-tag-head': ('./check C33 --tier quick', 'import->export and exportability obligations sat (solver verdict; to_git_ref_name is private)'),
+ 'C14-rollback-new-head': ('./check C14 --tier quick', '(G) effect log: "only parents other than the new id are ever removed" and "a failing call ends the update" sat for 1..3 old ids (solver verdict over the async MIR; file system is a stub). Needed two model additions first (OpenOptions builder stub, bare std enum variant constants): exit 2 before, exit 1 after'),
+ 'C20-prefix-upper-bound': ('./check C20 --tier quick', 'resolve4-* jobs (4-byte ids, 5..8 digit prefixes): "resolution agrees with the set of ids that start with the prefix" sat at 7 digits; reproduced natively. The original jobs (ids sharing a concrete 3-byte prefix) MISSED it: the wrong carry only shows when neighbouring ids differ in the byte before the odd digit; jobs added'),
+ 'C21-squash-order': ('./check C21 --tier quick', 'seq-3_1_1-ordered: "lookup = last sequential write" and "save does not change the lookup" sat after the third save; the history (3,1,1) was not in the quick tier before the seed (added; it is the smallest history that squashes two ancestor segments)'),
+ 'C32-dot-component-fastpath': ('./check C32 --tier quick', 'from_relative_path-len3: "no empty, . or .. component" and "converts back to a file-system path" sat for "a/."; reproduced natively. Needed the std::path::MAIN_SEPARATOR constant in the engine first (exit 2 before)'),
  'C44-exact-fit-zero-width': ('./check C44 --tier quick', '"text that already fits is returned unchanged" sat; reproduced natively'),
 }
 base = set(l.strip() for l in open('/tmp/baseline_names.txt')) if os.path.exists('/tmp/baseline_names.txt') else None
